@@ -587,7 +587,7 @@ def fc_data(n, kind, start, seed, n_new=3, positive=True):
     return data
 
 
-def fc_calls(which, pred_int=False):
+def fc_calls(which):
     table = {
         "out": Call("predict(fh=[1,2,3])", lambda f, d: f.predict(fh=d["fh_out"])),
         "gap": Call("predict(fh=[2,5])", lambda f, d: f.predict(fh=d["fh_gap"])),
@@ -754,7 +754,7 @@ def forecaster_subjects(tier, seed):
                     for fit in (FIT_PLAIN, FIT_UPD0):
                         out.append(fc_subject(f"make_reduction(stub, {scitype}, {strategy}, window_length=3)", red,
                                               n + 4, kind, start, seed, fit,
-                                              fc_calls(["out", "gap", "list"] + (["ins_short", "mixed"] if thorough else []))))
+                                              fc_calls(["out", "gap", "list"])))      # (no in-sample predictions)
                 else:
                     for fit in (FIT_FH, FIT_FH_UPD0):
                         out.append(fc_subject(f"make_reduction(stub, {scitype}, {strategy}, window_length=3)", red,
@@ -900,9 +900,9 @@ def series_transformer_subjects(tier, seed):
     if thorough:
         lays += [(17, "datetime", 2), (12, "range", 0), (20, "int64", 11)]
 
-    def pick(i, k=1):
-        """quick: k of the layouts, thorough: 3 * k of the six, rotating with the configuration and the seed"""
-        k = min(len(lays), 3 * k if thorough else k)
+    def pick(i, k=1, tk=3):
+        """quick: k of the layouts, thorough: tk * k of the six, rotating with the configuration and the seed"""
+        k = min(len(lays), tk * k if thorough else k)
         return [lays[(i + seed + j) % len(lays)] for j in range(k)]
 
     # ---- HampelFilter: spikes (flagged), NaN, float / int, Series / DataFrame
@@ -922,7 +922,7 @@ def series_transformer_subjects(tier, seed):
                                 if wl == 4 or special > 1 or (special == 1 and wl != 7):
                                     continue
                             i += 1
-                            for (n, kind, start) in pick(i):
+                            for (n, kind, start) in pick(i, tk=2):
                                 out.append(st_subject(
                                     f"HampelFilter(window_length={wl}, n_sigma={n_sigma}, return_bool={rb}) on "
                                     f"{'int64' if integer else 'float'} data with spikes{' and NaN' if nan_at else ''}",
@@ -1082,9 +1082,9 @@ def panel_transformer_subjects(tier, seed):
 
     cnt = [0]
 
-    def add(label, make, n_cols=1, fits=(PT_FIT,), conts=containers, random=False, **kw):
+    def add(label, make, n_cols=1, fits=(PT_FIT,), conts=containers, random=False, first_shape_only=False, **kw):
         cnt[0] += 1
-        for (n_inst, m) in shapes:
+        for (n_inst, m) in (shapes[:1] if first_shape_only else shapes):
             for ci, container in enumerate(conts):
                 for fi, fit in enumerate(fits):
                     if not thorough and len(conts) * len(fits) > 1 and (ci + fi + cnt[0] + seed) % 2:
@@ -1127,7 +1127,7 @@ def panel_transformer_subjects(tier, seed):
         lambda **o: RandomIntervalFeatureExtractor(n_intervals=3, features=[np.mean, np.std], **o), random=True)
     add("ShapeletTransform(min 3, max 5, 3 per class)",
         lambda **o: ShapeletTransform(min_shapelet_length=3, max_shapelet_length=5,
-                                      max_shapelets_to_store_per_class=3, **o), random=True)
+                                      max_shapelets_to_store_per_class=3, **o), random=True, first_shape_only=True)
     add("FittedParamExtractor(ExponentialSmoothing(), ['initial_level'])",
         lambda n_jobs=None, **o: FittedParamExtractor(ExponentialSmoothing(), ["initial_level"], n_jobs=n_jobs),
         n_jobs=(None, 1, 2, 4) if thorough else (None, 2))
